@@ -139,7 +139,9 @@ def r2(ctx):
     f = ctx.func(f"{ATTR}::_AttributeImpl._fire_loader_callables")
     g = ctx.cfg(f)
     le = call_nodes(g, lambda c: callee_is(c, "_load_expired"))
-    others = call_nodes(g, lambda c: isinstance(c.func, ast.Name) and c.func.id.startswith("callable") or (isinstance(c.func, ast.Attribute) and c.func.attr == "callable_"))
+    sp, pp = f.params[1], f.params[3]
+    # the other loaders: anything else that is invoked with (state, passive)
+    others = call_nodes(g, lambda c: not callee_is(c, "_load_expired") and [dotted(a) for a in c.args[:2]] == [sp, pp])
     ctx.require(le and others, "_fire_loader_callables: loader branches not found")
     exp_tests = [n.id for n in g.nodes if n.kind == "test" and any(a.endswith("in state.expired_attributes") and p for a, p in test_atoms(n.stmt.test))]
     good = bool(exp_tests) and all(any(a.endswith("in state.expired_attributes") and p for a, p in guard_atom_set(g, n)) for n in le)
@@ -214,11 +216,11 @@ def r3(ctx):
     # props narrowing
     loops = [n for n in walk_local(outer.node) if isinstance(n, ast.For) and isinstance(n.iter, ast.Name) and any(
         isinstance(c.func, ast.Attribute) and c.func.attr == "append" for s in n.body for c in calls_in(s))]
-    pname = None
+    pname, ploop = None, None
     for lp in loops:
         defs = [v for n, v, s in name_stores(outer.node) if n == lp.iter.id]
         if any(v is not None and "_prop_set" in unparse(v) for v in defs):
-            pname = lp.iter.id
+            pname, ploop = lp.iter.id, lp
     ctx.require(pname is not None, "_instance_processor: the loop over the mapper's properties that builds the populators is not found")
     narrowed = False
     pm = outer.module.parents()
@@ -226,11 +228,14 @@ def r3(ctx):
     for n, v, s in name_stores(outer.node):
         if n == pname and isinstance(v, ast.Call) and isinstance(v.func, ast.Attribute) and v.func.attr == "intersection" and dotted(v.func.value) == pname \
                 and "only_load_props" in unparse(v.args[0] if v.args else v):
-            atoms = set()
+            atoms, base = set(), set()
             for t, pol in lexical_guards(pm, s, stop=outer.node):
                 atoms.update(test_atoms(t, pol))
-            if ("only_load_props is None", False) in atoms or ("only_load_props", True) in atoms:
-                narrowed = True
+            for t, pol in lexical_guards(pm, ploop, stop=outer.node):
+                base.update(test_atoms(t, pol))
+            atoms -= base  # conditions under which the populator loop itself runs do not count
+            if atoms in ({("only_load_props is None", False)}, {("only_load_props", True)}):
+                narrowed = True  # narrowed whenever only_load_props is given, under no further condition
     ctx.check(narrowed, f"{outer.key}:populators-narrowed-by-only_load_props",
               "the populated properties are not narrowed to only_load_props: refresh(obj, ['x']) / an unexpire load of some attributes overwrites every "
               "column attribute in the row, including ones with pending changes", f"{pname} = {pname}.intersection(... only_load_props)", outer.loc)
@@ -243,7 +248,7 @@ def r3(ctx):
     eff = eff[0]
     ups = [n.id for n in g.nodes if n.kind == "stmt" and isinstance(n.stmt, ast.Assign) and any(dotted(t) == eff for t in n.stmt.targets)
            and isinstance(n.stmt.value, ast.Constant) and n.stmt.value.value is True]
-    good = bool(ups) and all({a for a in guard_atom_set(g, n)} >= {("refresh_state is state", True)} or {a for a in guard_atom_set(g, n)} >= {("state is refresh_state", True)} for n in ups)
+    good = bool(ups) and all(guard_atom_set(g, n) in ({("refresh_state is state", True)}, {("state is refresh_state", True)}) for n in ups)
     ctx.check(good, f"{outer.key}._instance:refreshed-state-is-repopulated", "the state being refreshed does not get populate_existing semantics: refresh() keeps the attribute "
                                                                              "values already loaded", f"if refresh_state is state: {eff} = True", outer.loc)
     full = call_nodes(g, lambda c: callee_is(c, "_populate_full"))
@@ -263,9 +268,9 @@ def r3(ctx):
     part = call_nodes(g, lambda c: callee_is(c, "state._commit") and len(c.args) == 2 and dotted(c.args[1]) == "only_load_props")
     allc = call_nodes(g, lambda c: callee_is(c, "state._commit_all"))
     ctx.require(part and allc, "_instance: state._commit(dict_, only_load_props) / state._commit_all(...) not found")
-    pa = set().union(*[guard_atom_set(g, n) for n in part])
-    good = {("refresh_state", True), ("only_load_props", True)} <= pa
     al = [guard_atom_set(g, n) for n in allc]
+    common = set.intersection(*al) if al else set()
+    good = all(guard_atom_set(g, n) - common == {("refresh_state", True), ("only_load_props", True)} for n in part)
     # _commit_all must not be reachable on the partial-refresh branch
     good2 = all(not ({("refresh_state", True), ("only_load_props", True)} <= a) for a in al)
     ctx.check(good and good2, f"{outer.key}._instance:partial-refresh-commits-only-its-attributes",
@@ -279,7 +284,7 @@ def r3(ctx):
 
 
 # ------------------------------------------------------------------------------------------ R4
-@R.rule("C46-R4", floor=7, template="T-PATH/T-GUARD",
+@R.rule("C46-R4", floor=8, template="T-PATH/T-GUARD",
         desc="Session.refresh: _expire_state(state, attribute_names) precedes the load, the load is _load_on_ident(..., "
              "state.key, refresh_state=state, only_load_props=attribute_names) and its None result raises "
              "InvalidRequestError; _load_scalar_attributes loads with refresh_state=state / only_load_props of the request "
@@ -382,7 +387,7 @@ R.mutant("instance-callable-before-expired", ATTR, sub("        if (\n          
                                                        "        if key in state.callables:\n            callable_ = state.callables[key]\n            return callable_(state, passive)\n        elif (\n            self.accepts_scalar_loader\n            and self.load_on_unexpire\n            and key in state.expired_attributes\n        ):\n            return state._load_expired(state, passive)\n"), "C46-R2")
 R.mutant("load-expired-ignores-passive", STATE, sub("        if not passive & SQL_OK:\n            return PASSIVE_NO_RESULT\n\n        toload", "        toload"), "C46-R2")
 # R3
-R.mutant("populators-not-narrowed", LOADING, sub("        if only_load_props is not None:\n            props = props.intersection(\n                mapper._props[k] for k in only_load_props\n            )\n", "        if only_load_props is not None and refresh_state is None:\n            props = props.intersection(\n                mapper._props[k] for k in only_load_props\n            )\n"), None)  # still narrowed under `only_load_props is not None`: rule reads the conjunction -- see R3 note
+R.mutant("populators-not-narrowed-on-refresh", LOADING, sub("        if only_load_props is not None:\n            props = props.intersection(\n                mapper._props[k] for k in only_load_props\n            )\n", "        if only_load_props is not None and refresh_state is None:\n            props = props.intersection(\n                mapper._props[k] for k in only_load_props\n            )\n"), "C46-R3")
 R.mutant("populators-never-narrowed", LOADING, sub("        if only_load_props is not None:\n            props = props.intersection(\n                mapper._props[k] for k in only_load_props\n            )\n", "        if only_load_props is not None:\n            pass\n"), "C46-R3")
 R.mutant("refresh-state-not-repopulated", LOADING, sub("        if refresh_state is state:\n            effective_populate_existing = True\n", "        if refresh_state is state and state.modified:\n            effective_populate_existing = True\n"), "C46-R3")
 R.mutant("full-population-unconditional", LOADING, sub("        if currentload or effective_populate_existing:\n            # full population routines.", "        if currentload or effective_populate_existing or not state.modified:\n            # full population routines."), "C46-R3")
